@@ -70,7 +70,7 @@ def workdir():
 
 # ------------------------------------------------------------------------------------------------ C16
 C16_DOCS = [
-    [{"id": 1, "name": "a", "tags": ["x"]}, {"id": 2, "name": "b", "extra": None}],
+    [{"id": 1, "name": "a", "tags": ["x"], "p": {"a": 1, "b": 2, "c": 3, "d": 4}, "q": {"a": 1, "x": 2, "y": 3, "z": 4}}, {"id": 2, "name": "b", "extra": None}],
     {"id": 3, "name": "c", "nested": {"k": 1.5}},
     {"data": {"items": [{"id": 4, "s": "on"}, {"id": 5, "s": "off", "coupon": 7}]}},
     [{"id": 6, "when": "2018-12-31", "n": "12"}],
@@ -115,6 +115,15 @@ def oracle_c16(case):
         if optname == "exact":
             argv += ["--merge", "exact"]
             opts["merge"] = [ModelFieldsEquals()]
+        elif optname.startswith("merge:"):
+            # thresholds around the overlaps present in the documents (p/q share 1 of 7 keys): the CLI's conversion of the policy text
+            words = optname[6:].split()
+            argv += ["--merge"] + words
+            pol = []
+            for w in words:
+                kind, _, arg = w.partition("_")
+                pol.append(ModelFieldsEquals() if kind == "exact" else (ModelFieldsPercentMatch(float(arg) / 100) if kind == "percent" else ModelFieldsNumberMatch(int(arg))))
+            opts["merge"] = pol
         elif optname == "max0":
             argv += ["--max-strings-literals", "0"]
             opts["max_literals"] = 0
@@ -160,11 +169,12 @@ def oracle_c16(case):
 @bounded("C16", "cli_equals_library_pipeline")
 def c16(tier, seed):
     splits = ["one_model_many_files", "two_models", "m_and_l", "pattern"]
-    opts = ["none", "exact", "max0", "max2", "dkf", "converters", "preamble"]
+    opts = ["none", "exact", "max0", "max2", "dkf", "converters", "preamble", "merge:percent_1", "merge:percent_0.5", "merge:percent_15", "merge:percent_100 number_1",
+            "merge:number_2", "merge:number_1 exact"]
     fws = ["base", "pydantic", "attrs", "dataclasses"] if tier == "thorough" else ["pydantic", "dataclasses"]
     cases = [(s, fw, lay, o) for s in splits for fw in fws for lay in ("flat", "nested") for o in opts]
     r = run_cases(cases, oracle_c16, "c16")
-    r["bound"] = f"4 ways of splitting 4 documents over files / lookups / -m / -l / a one-file pattern x {len(fws)} frameworks x 2 layouts x 7 option sets; stdout and -o both compared with the library pipeline"
+    r["bound"] = f"4 ways of splitting 4 documents over files / lookups / -m / -l / a one-file pattern x {len(fws)} frameworks x 2 layouts x 13 option sets (incl. merge thresholds around the overlaps present); stdout and -o both compared with the library pipeline"
     r["function"] = "Cli.parse_args + Cli.run (in-process)"
     return r
 
